@@ -30,6 +30,8 @@ def setup():
     for c in m1_ops.configs("quick"):
         s = m1_ops.run_model(c)
         print("tlc  %-22s generated=%d distinct=%d cached=%s %.1fs" % (c["name"], s["generated"], s["distinct"], s["cached"], s["wall_s"]))
+    for s in m1_ops.run_small("quick"):
+        print("tlc  %-22s generated=%d distinct=%d cached=%s %.1fs" % (s["tag"], s["generated"], s["distinct"], s["cached"], s["wall_s"]))
     from . import m2_query
 
     for (prop, tier), cs in sorted(m2_query.CONFIGS.items()):
@@ -113,6 +115,8 @@ def c01(res):
     outs = _m1_common(res, "C01")
     from . import traces
 
+    for st in m1_ops.run_small(res.tier):
+        res.add_tlc(st)
     traces.classify_suite(res, "C01")
     traces.classify_driver(res, "C01")
     res.rule = M1_RULE + "Distinct = vectors x class families x assertion settings; non-trivial = the call changes a link or a hook raises."
